@@ -16,7 +16,7 @@ RULE = ("same lattice as C04 with value palettes per attribute kind (ints at cod
         "attribute by attribute with the model")
 ASSUMPTIONS = ["strict reader mc/rp66.py", "reference model mc/model.py and schema mc/schema.py (labels, kinds, fixed "
                "codes from RP66 V1 ch.5/6)", "units of a value-less attribute are not required in the file",
-               "numeric-looking strings for coordinates/parameter values are outside the alphabet"]
+               "strings that are plain decimal numerals (which the library turns into numbers by design) are outside the alphabet for coordinates/parameter values; texts that merely parse with float() (INF, NAN, 1E5) are inside and must stay texts"]
 
 
 def shards(tier):
